@@ -238,7 +238,7 @@ Fixpoint table_at (l : list Z) (stride : nat) (recs : list (list Z)) : bool :=
 (* a record of layout L can be read at [off] *)
 Definition readable (img : list Z) (off : Z) (L : layout) : bool :=
   (0 <=? off) && (off <? zlenT img) &&
-  match decode_layout L (window L (drop off img)) with Some _ => true | None => false end.
+  match decode_rec L (drop off img) with Some _ => true | None => false end.
 
 Definition zero_shdr : shdr_spec :=
   {| sh_name := 0; sh_type := 0; sh_flags := 0; sh_addr := 0; sh_offset := 0; sh_size := 0;
